@@ -35,6 +35,8 @@ pub struct QueryEngine {
     registered_metrics_paths: Arc<RwLock<BTreeSet<String>>>,
     /// Serialize operations that mutate and query the logical `metrics` table
     metrics_table_query_lock: Arc<Mutex<()>>,
+    /// Whether `metrics` has ever been bound to real chunks (and so carries the data's schema)
+    metrics_bound_to_data: Arc<std::sync::atomic::AtomicBool>,
     /// Object-store URL scheme used for chunk URLs.
     object_store_scheme: String,
     /// Object-store container/bucket used for chunk URLs.
@@ -90,6 +92,7 @@ impl QueryEngine {
             registered_paths: Arc::new(RwLock::new(HashSet::new())),
             registered_metrics_paths: Arc::new(RwLock::new(BTreeSet::new())),
             metrics_table_query_lock: Arc::new(Mutex::new(())),
+            metrics_bound_to_data: Arc::new(std::sync::atomic::AtomicBool::new(false)),
             object_store_scheme: storage_config.provider.object_store_scheme().to_string(),
             object_store_container: storage_config.container.clone(),
         };
@@ -156,6 +159,15 @@ impl QueryEngine {
         operation().await
     }
 
+    /// Whether `metrics` has ever been bound to real chunks.
+    ///
+    /// Until then it is the empty start-up table with the built-in default schema, which
+    /// may lack the data's own columns and have another timestamp type.
+    pub fn is_bound_to_data(&self) -> bool {
+        self.metrics_bound_to_data
+            .load(std::sync::atomic::Ordering::Acquire)
+    }
+
     /// Register the logical `metrics` table over a set of chunk paths.
     ///
     /// This resolves the model mismatch between SQL queries (`FROM metrics`) and
@@ -216,6 +228,8 @@ impl QueryEngine {
 
         let _ = self.ctx.deregister_table("metrics");
         self.ctx.register_table("metrics", Arc::new(table))?;
+        self.metrics_bound_to_data
+            .store(true, std::sync::atomic::Ordering::Release);
 
         *self.registered_metrics_paths.write() = normalized_paths;
 
